@@ -58,4 +58,7 @@ canary unknown-attrs-roundtrip-without-precondition C06 'verifLemmaUnknownAttrsR
 canary mapped-addr-roundtrip-wrong-byte C06 'verifLemmaMappedAddrRoundTrip' \
   'len(result0.IP) == 16 && Eq16(result0.IP, a.IP)' \
   'len(result0.IP) == 16 && Eq16(result0.IP, a.IP) && result0.IP[3] == old(a.IP[2])'
+canary equal-after-decode-with-legacy-alias C03 'verifLemmaEqualAfterDecode' \
+  'm.Attributes[k].Type != 0x8020 && region(m.Attributes[k].Value) != region(d.Raw)' \
+  'region(m.Attributes[k].Value) != region(d.Raw)'
 exit $bad
